@@ -12,6 +12,11 @@ REPLAYS = vpaths.REPLAYS
 KNOWN = os.path.join(VERIF, "known_findings.json")
 
 
+
+def _soft(why):
+    """a harness / query that ran out of its time or memory budget: not explored (reported, never counted as held)"""
+    return why.startswith("kissat timeout") or why.startswith("timeout after") or why.startswith("resource budget")
+
 def load_known():
     try:
         return json.load(open(KNOWN))
@@ -208,12 +213,12 @@ def main(prop, tier, only=None, engine=None):
         # a query / harness that merely ran out of its time budget was NOT EXPLORED: it is reported (here and in the evidence) and
         # does not turn the verdict of what WAS explored into a failure -- unless nothing at all was decided. Everything else that
         # is inconclusive (out of memory, vacuous harness, encoding error, a counterexample that does not replay) is exit 2.
-        hard = [(r_, w_) for r_, w_ in inconclusive if not (w_.startswith("kissat timeout") or w_.startswith("timeout after"))]
+        hard = [(r_, w_) for r_, w_ in inconclusive if not _soft(w_)]
         decided = cnt["checks"] > 0
         if hard or (inconclusive and not decided):
             rc = 2
     for role, why in inconclusive:
-        tag = "NOT-EXPLORED (time budget)" if (why.startswith("kissat timeout") or why.startswith("timeout after")) else "INCONCLUSIVE"
+        tag = "NOT-EXPLORED (time budget)" if not why.startswith("resource budget") and _soft(why) else "NOT-EXPLORED (memory budget)" if _soft(why) else "INCONCLUSIVE"
         print("%s %s: %s" % (tag, role, why))
 
     n_k = len(k_results); n_m = len(m_results)
@@ -243,7 +248,7 @@ def main(prop, tier, only=None, engine=None):
             "solver_time_s": round(solver_time, 2),
             "known_findings_matched": [kf["what"] for kf in known_hits],
             "inconclusive": [{"role": r, "why": w} for r, w in inconclusive],
-            "not_explored_time_budget": [r for r, w in inconclusive if (w.startswith("kissat timeout") or w.startswith("timeout after"))],
+            "not_explored_time_budget": [r for r, w in inconclusive if _soft(w)],
             "engine_m_stats": m_stats,
             "partial_run": partial,
             "exhaustive": False,
